@@ -165,6 +165,7 @@ struct PostWin {
 /// Flags and counters the property modules turn into evidence classes / the non-trivial rule.
 #[derive(Default, Debug, Clone)]
 pub struct Facts {
+    pub sources_returned_err: u32,
     pub tasks_scheduled: u32,
     pub tasks_scheduled_in_cb: u32,
     pub task_wakes: u32,
@@ -960,6 +961,7 @@ impl Monitor {
                 None
             }
             ROp::DropIdleHandle { .. } => None,
+            ROp::Stop => None,
             ROp::Wakeup => {
                 self.facts.wakeups += 1;
                 None
@@ -1855,8 +1857,13 @@ impl Monitor {
                     if self.srcs.iter().any(|m| m.owed && m.called == 0 && !m.touched && m.st == St::Inserted) {
                         self.facts.err_with_pending_batch += 1;
                     }
-                    // whatever the loop does to the failing source itself is not judged
-                    self.taint(s, "returned_err");
+                    // the failing source itself stays what it was: no post-action, a deferred request is discarded.
+                    // (composites are left alone afterwards: which of their children had already acted on the event
+                    // when the error was raised is their own business)
+                    self.facts.sources_returned_err += 1;
+                    if let Kind::Comp { .. } = self.srcs[s].kind {
+                        self.taint(s, "returned_err");
+                    }
                     self.win = Some(PostWin { src: s, effective: PRet::Err, removed_in_cb, events: vec![], err: true });
                     return None;
                 }
